@@ -14,6 +14,7 @@ Line protocol of C18 (all numbers decimal, times in milliseconds of the case's t
        after (well inside the ban period), said no.
   ip <ev>…
        ev = <t>:ab:<addr>/<plen|x>:<dur> | <t>:rb:<key> | <t>:aw:<key> | <t>:rw:<key> | <t>:al:<ip> | <t>:ar:<ip> | <t>:c
+            | <t>:rs    (a new IPManager over the same storage takes over)
   rl <Rate> <Burst> <TTL> <U> <ev>…
        ev = <t>:a:<ip> | <t>:c
   hs <MaxFailures> <TimeWindow> <BanDuration> <PermanentBanAt> <Rate> <Burst> <TTL> <U> <ev>…
@@ -59,6 +60,7 @@ def parseIEv (ps : List String) : Option IEv :=
   | ["al", a] => a.toNat?.map .isAllowed
   | ["ar", a] => a.toNat?.map .asyncRemove
   | ["c"] => some .cleanup
+  | ["rs"] => some .restart
   | _ => none
 
 def parseREv (ps : List String) : Option REv :=
